@@ -514,6 +514,101 @@ fn pools_mode(rng: &mut Rng, n: usize, thorough: bool) {
   }
 }
 
+// ------------------------------------------------------------------------------------------------ rayon's bridge, observed
+/// an index-range producer that records every split_at rayon's bridge asks for (validates Model/C15_Bridge.v against the real rayon)
+struct LogProducer {
+  lo: usize,
+  hi: usize,
+  log: std::sync::Arc<std::sync::Mutex<Vec<(usize, usize, usize)>>>,
+}
+impl Producer for LogProducer {
+  type Item = usize;
+  type IntoIter = std::ops::Range<usize>;
+  fn into_iter(self) -> Self::IntoIter {
+    self.lo..self.hi
+  }
+  fn split_at(self, index: usize) -> (Self, Self) {
+    self.log.lock().unwrap().push((self.lo, self.hi, index));
+    (LogProducer { lo: self.lo, hi: self.lo + index, log: self.log.clone() }, LogProducer { lo: self.lo + index, hi: self.hi, log: self.log })
+  }
+}
+struct LogIter {
+  len: usize,
+  log: std::sync::Arc<std::sync::Mutex<Vec<(usize, usize, usize)>>>,
+}
+impl ParallelIterator for LogIter {
+  type Item = usize;
+  fn drive_unindexed<C: rayon::iter::plumbing::UnindexedConsumer<usize>>(self, consumer: C) -> C::Result {
+    rayon::iter::plumbing::bridge(self, consumer)
+  }
+  fn opt_len(&self) -> Option<usize> {
+    Some(self.len)
+  }
+}
+impl IndexedParallelIterator for LogIter {
+  fn len(&self) -> usize {
+    self.len
+  }
+  fn drive<C: rayon::iter::plumbing::Consumer<usize>>(self, consumer: C) -> C::Result {
+    rayon::iter::plumbing::bridge(self, consumer)
+  }
+  fn with_producer<CB: ProducerCallback<usize>>(self, callback: CB) -> CB::Output {
+    callback.callback(LogProducer { lo: 0, hi: self.len, log: self.log })
+  }
+}
+
+fn bridge_mode(rng: &mut Rng, n: usize) {
+  let mut lens: Vec<usize> = vec![0, 1, 2, 3, 4, 5, 7, 10, 64, 100, 1000];
+  for _ in 0..n {
+    lens.push(1 + rng.below(10000));
+  }
+  for len in lens {
+    for threads in [1usize, 2, 4, 16] {
+      let r = on_pool(threads, 120, "bridge split log", move || {
+        let log = std::sync::Arc::new(std::sync::Mutex::new(vec![]));
+        let total: usize = LogIter { len, log: log.clone() }.map(|i| i).sum();
+        let v = log.lock().unwrap().clone();
+        (total, v)
+      });
+      if let Some((total, v)) = r {
+        emit(json!({"kind": "bridge_log", "len": len, "threads": threads, "sum": total, "splits": v.iter().map(|(a, b, k)| json!([a, b, k])).collect::<Vec<_>>()}));
+      }
+    }
+  }
+}
+
+/// Simpson's rule is exact on cubics: Integrator::Simpson on polynomials that do NOT vanish at the upper limit, for division counts on
+/// both sides of the 128-division threshold (sequential / parallel branch of `simpson`) and on pools of 1..16 threads; 2-D likewise.
+fn simpson_mode(rng: &mut Rng, n: usize) {
+  let divs_list: [usize; 16] = [4, 6, 50, 100, 126, 127, 128, 129, 130, 131, 132, 133, 140, 200, 256, 1000];
+  let divs2_list: [usize; 5] = [4, 6, 11, 20, 50];
+  for case in 0..n {
+    let c: Vec<f64> = (0..4).map(|_| rng.range(0.5, 2.)).collect();
+    let ci: Vec<f64> = (0..4).map(|_| rng.range(0.5, 2.)).collect();
+    let (a, b) = (rng.range(-1., 0.), rng.range(0.5, 2.));
+    let (a2, b2) = (rng.range(-1., 0.), rng.range(0.5, 2.));
+    emit(json!({"kind": "simpson_ref", "case": case, "c": fxs(&c), "ci": fxs(&ci), "a": fx(a), "b": fx(b), "a2": fx(a2), "b2": fx(b2)}));
+    for threads in [0usize, 1, 2, 3, 4, 5, 8, 16] {
+      let (c1, c2) = (c.clone(), ci.clone());
+      let work = move || {
+        let p = |x: f64| c1[0] + x * (c1[1] + x * (c1[2] + x * c1[3]));
+        let q = |x: f64| c2[0] + x * (c2[1] + x * (c2[2] + x * c2[3]));
+        let one: Vec<(usize, Complex<f64>)> = divs_list.iter().map(|d| (*d, Integrator::Simpson { divs: *d }.integrate(|x| Complex::new(p(x), q(x)), a, b))).collect();
+        // f(x, y) = p(x) q(y) + i (x + y + 3): cubic in each variable, non-zero on the upper edges
+        let two: Vec<(usize, Complex<f64>)> = divs2_list.iter().map(|d| (*d, Integrator::Simpson { divs: *d }.integrate2d(|x, y| Complex::new(p(x) * q(y), x + y + 3.), a, b, a2, b2))).collect();
+        (rayon::current_num_threads(), one, two)
+      };
+      // threads = 0: the global pool, as the library is normally used
+      let r = if threads == 0 { Some(work()) } else { on_pool(threads, 300, "simpson on polynomials", work) };
+      if let Some((nthreads, one, two)) = r {
+        emit(json!({"kind": "simpson", "case": case, "threads": threads, "current_num_threads": nthreads,
+          "one": one.iter().map(|(d, z)| json!([d, fx(z.re), fx(z.im)])).collect::<Vec<_>>(),
+          "two": two.iter().map(|(d, z)| json!([d, fx(z.re), fx(z.im)])).collect::<Vec<_>>()}));
+      }
+    }
+  }
+}
+
 pub fn run(args: &[String]) {
   let seed = arg_u64(args, 0, 1);
   let n = arg_u64(args, 1, 2) as usize;
@@ -525,6 +620,12 @@ pub fn run(args: &[String]) {
   }
   if mode == "pools" || mode == "all" {
     pools_mode(&mut rng, n, thorough);
+  }
+  if mode == "bridge" || mode == "all" {
+    bridge_mode(&mut rng, n);
+  }
+  if mode == "simpson" || mode == "all" {
+    simpson_mode(&mut rng, n);
   }
   emit(json!({"kind": "done", "mode": mode}));
 }
